@@ -45,6 +45,10 @@ claim("C07", "dominance of catalog inserts by parent lookups (edge cut); cascade
       "Decides C07.1-C07.6: services/checks rows are inserted only below successful parent lookups; node and service deletes look up and delete their dependants and reach the derived-table cleanups; the services insert path always maintains kind-service-names and (for connect) the topology; usage is written only from txn.Commit; free-list/counter/assignment writes of the VIP allocator are paired; the topology row rewritten derives from the row read. Equality of derived views with a recomputation and VIP uniqueness over histories are not decided.",
       "DESIGN.md section 3 C07")
 
+claim("C08", "finite-domain abstract interpretation of the two precedence functions over their whole input domain (25 + 15 cells); alias/mutation analysis of the merge-context maps; sibling agreement of authorizer methods (access-level constant vs method name, rule tree per resource, delegation targets); data-flow of the cache keys",
+      "Decides C08.1 (takesPrecedenceOver and enforce equal the documented order/table on every cell of their finite domain), C08.2 (no merge-map entry that aliases an input rule is written through — the F1 defect class, also for key/node/... rules), C08.3 (35 policyAuthorizer methods ask for the level their name says, 15 resources use one rule tree each, 71 delegating methods delegate to the like-named method), C08.4 (authorizer cache key folds ID and ModifyIndex of the compiled receiver). Longest-prefix selection in the radix tree is library behaviour and is not decided.",
+      "DESIGN.md section 3 C08")
+
 NA_REASON = {}
 
 checks = []
